@@ -51,6 +51,14 @@ class R(metaclass=M2):
     def __init__(self, n):
         LOG.append(("R", self, (n,), {}))
         self.inner = R(n - 1) if n > 0 else None
+ATTEMPTS = []
+class G(metaclass=M1):
+    """construction can fail: __init__ rejects a negative first argument"""
+    def __init__(self, *args, **kwargs):
+        ATTEMPTS.append(args)
+        if args and args[0] < 0:
+            raise ValueError("negative")
+        LOG.append(("G", self, args, kwargs))
 def make_twin(tag):
     """a class factory: its products are distinct classes with one name, module and qualified name"""
     class Twin(metaclass=M1):
@@ -65,6 +73,8 @@ CLASSES = ("A", "B", "C", "D", "E")
 FORMS = {
     "one": ((1,), []), "two": ((2,), []), "three": ((3,), []), "minus1": ((-1,), []), "minus2": ((-2,), []),
     "kw-xy": ((1,), [("x", 1), ("y", 2)]), "kw-yx": ((1,), [("y", 2), ("x", 1)]), "kw-other": ((1,), [("x", 1), ("y", 3)]), "none": ((), []),
+    # positional arguments that look like the default key of the call (1, x=1, y=2): a different call, hence a different key
+    "mimic-kw-xy": (((1,), '{"x": 1, "y": 2}'), []),
 }
 
 
@@ -97,7 +107,7 @@ def run(ctx):
             extra_two = pre[0]  # A also holds `two`
             ops = []
             for c in CLASSES:
-                forms = list(FORMS) if c in ("A", "B") or ctx.thorough else ["one", "two", "minus2"]
+                forms = [f_ for f_ in FORMS if not (f_.startswith("mimic") and hf == "parity")] if c in ("A", "B") or ctx.thorough else ["one", "two", "minus2"]
                 ops += [("call", c, f) for f in forms]
                 ops += [("check", c, "one"), ("check", c, "three"), ("get_all", c, None), ("clear", c, None), ("drop", c, "one"), ("add", c, "three")]
             for op in ops:
@@ -148,10 +158,53 @@ def run(ctx):
                               f"two classes produced by one class factory (same name, module and qualified name, same metaclass), hash function {hf}: {why}",
                               replay="from edgegraph.structure.singleton import *\nM = semi_singleton_metaclass()\ndef make():\n    class Twin(metaclass=M):\n        def __init__(self, x): self.x = x\n    return Twin\n"
                                      "T1, T2 = make(), make()\na = T1(1)\nb = T2(1)\nprint(type(a) is T1, type(b) is T2, a is not b, check_semi_singleton_entry_exists(T2, 1) is b)")
+    # ---- a constructor that raises: nothing is mapped, the next attempt runs __init__ again
+    for hf in ("None", "first"):
+        try:
+            why = failing_ctor(h, hf)
+        except Unknown as u:
+            res.ob(False)
+            res.undecide(f"failing constructor hashfunc={hf}: {u}")
+            continue
+        n += 1
+        res.ob(why is None, sig=("failing-ctor", hf))
+        if why:
+            res.violation("MAP-STEP", MOD + ".semi_singleton_metaclass.<locals>._SemiSingleton.__call__", f"hashfunc={hf},op=call,constructor-raises",
+                          f"class G whose __init__ raises ValueError for a negative argument, hash function {hf}: {why}",
+                          replay="from edgegraph.structure.singleton import *\nM = semi_singleton_metaclass()\nclass G(metaclass=M):\n    def __init__(self, x):\n        if x < 0: raise ValueError\n        self.x = x\n"
+                                 "for _ in range(2):\n    try: G(-1)\n    except ValueError: print('raised')\nprint(check_semi_singleton_entry_exists(G, -1), list(get_all_semi_singleton_instances(G)))")
     res.rule("MAP-STEP", n)
     common.vacuity(res, "MAP-STEP", 1000)
     res.analysed = common.analysed(ctx, [MOD + "." + f for f in ("semi_singleton_metaclass", "add_mapping", "drop_semi_singleton_mapping", "check_semi_singleton_entry_exists", "get_all_semi_singleton_instances", "clear_semi_singleton")])
     res.explanation = "Each operation maps every reachable state of the per-class key->instance maps to the model's state and returns what the model returns; induction covers every history."
+
+
+def failing_ctor(h, hf):
+    h.reset()
+    m = h.w.load_text("verif_c17", SRC.replace("@HF@", hf))
+    h.w.mods.pop("verif_c17", None)
+    g = m.globals
+    h.settle()
+    G, attempts = g["G"], g["ATTEMPTS"]
+    check, get_all = g["check_semi_singleton_entry_exists"], g["get_all_semi_singleton_instances"]
+    for round_ in (1, 2):
+        o = h.call(G, -5)
+        if o.kind != "raise" or o.excname != "ValueError":
+            return f"attempt {round_}: G(-5) gives {o!r}; its __init__ raises ValueError"
+        if len(attempts.items) != round_:
+            return f"attempt {round_}: __init__ ran {len(attempts.items)} time(s) in total - a construction that failed must not be remembered"
+        c = h.call(check, G, -5)
+        if c.kind != "return" or (c.value is not None and c.value is not False):
+            return f"after the failed G(-5), check(G, -5) reports {c!r}: no instance was constructed for that key"
+        ga = h.call(get_all, G)
+        items = ga.value.items if ga.kind == "return" and hasattr(ga.value, "items") else None
+        if items is None or len(items) != 0:
+            return f"after the failed G(-5), get_all(G) reports {ga!r}"
+    o1 = h.call(G, 1)
+    o2 = h.call(G, 1)
+    if o1.kind != "return" or o2.kind != "return" or o1.value is not o2.value or len(attempts.items) != 3:
+        return f"afterwards G(1) twice gives {o1!r}, {o2!r} with {len(attempts.items) - 2} __init__ run(s)"
+    return None
 
 
 def twins(h, hf, script):
@@ -255,7 +308,7 @@ def evaluate(h, hf, live, extra_two, op):
 
     def callargs(form):
         args, kw = FORMS[form]
-        return list(args), dict(kw)
+        return [Seq(list(a_), "tuple") if isinstance(a_, tuple) else a_ for a_ in args], dict(kw)
 
     def construct(c, form):
         args, kw = callargs(form)
@@ -347,7 +400,7 @@ def evaluate(h, hf, live, extra_two, op):
         T[c][key_of(hf, form)] = obj
     # observe: non-creating first, then constructions
     for c2 in CLASSES:
-        for f2 in ("one", "two", "three", "minus1", "minus2", "none"):
+        for f2 in ("one", "two", "three", "minus1", "minus2", "none") + (("mimic-kw-xy", "kw-xy") if hf != "parity" else ()):
             args, kw = callargs(f2)
             before = len(log.items)
             out = h.call(g["check_semi_singleton_entry_exists"], g[c2], *args, **kw)
@@ -355,7 +408,7 @@ def evaluate(h, hf, live, extra_two, op):
             if out.kind != "return" or len(log.items) != before or (want is None and out.value is not None and out.value is not False) or (want is not None and out.value is not want and out.value is not True):
                 return f"afterwards check({c2}, {f2}) reports {out!r}; the model's live mapping is {want!r}"
     for c2 in CLASSES:
-        for f2 in ("one", "three", "none", "none"):
+        for f2 in ("one", "three", "none", "none") + (("kw-xy", "mimic-kw-xy") if hf != "parity" else ()):
             out, new = construct(c2, f2)
             w = model_call(c2, f2, out, new, "afterwards ")
             if w:
